@@ -190,6 +190,10 @@ M = [
       old="        (out[i + j], carry) = out[i + j].adc(carry2, carry);\n        i += 1;\n    }\n\n    carry\n}",
       new="        carry = carry.wrapping_add(carry2);\n        (out[i + j], carry) = out[i + j].adc(Limb::ZERO, carry);\n        i += 1;\n    }\n\n    carry\n}",
       expect="carry.widesum|uint::mul::karatsuba::adc_mul_limbs|mac"),
+ dict(name="monty_params_one_unreduced", prop="C08", file="src/modular/monty_form.rs",
+      old="            .rem_vartime(modulus.as_nz_ref())\n            .wrapping_add(&Uint::ONE)\n            .rem_vartime(modulus.as_nz_ref());",
+      new="            .rem_vartime(modulus.as_nz_ref())\n            .wrapping_add(&Uint::ONE);",
+      expect="c08.param|modular::monty_form::MontyParams<_>::new_vartime|one"),
  # --- C19
  dict(name="random_mod_core_polarity", prop="C19", file="src/uint/rand.rs",
       old="        if n.ct_lt(modulus).into() {\n            break;", new="        if !bool::from(n.ct_lt(modulus)) {\n            break;",
